@@ -13,6 +13,8 @@ TRUSTED = ['datetime/timedelta arithmetic (civil <-> ordinal), microsecond round
 
 
 def extra(report, env):
+    from props.C14 import tz_obligations
+    tz_obligations(report, env, 'C13')
     from pyvc import native
     ser = native.real_function('hotxlfp.formulas.utils:serialize_date')
     par = native.real_function('hotxlfp.formulas.utils:parse_date')
